@@ -380,9 +380,10 @@ def krige_fit_geo_scale(ctx, geo):
 
 
 @contract(P, "binning.standard_bins[latlon]/equal-bins-up-to-a-third-of-the-great-circle-box-diameter",
-          params={"bin_no": [None, 4], "n": [2, 4]},
+          params=[{"bin_no": b, "n": n, "mesh": "unstructured"} for b in (None, 4) for n in (2, 4)] +
+                 [{"bin_no": None, "n": 4, "mesh": "structured"}],
           functions=["variogram/binning.py:standard_bins", "variogram/binning.py:_sturges"], timeout=40)
-def standard_bins_latlon(ctx, bin_no, n):
+def standard_bins_latlon(ctx, bin_no, n, mesh):
     """docstring: bins from 0 to max_dist = one third of the box diameter of the points, for lat-lon the
     points on the sphere of radius geo_scale and the diameter converted to a great-circle distance in the
     unit of geo_scale; number of bins by Sturges' rule ceil(2 log2(n) + 1) unless given.
@@ -393,8 +394,14 @@ def standard_bins_latlon(ctx, bin_no, n):
     m = ctx.m
     R = ctx.real("R", lo=0.5, hi=7000.0)
     ctx.require(ctx.gt(R, 0))
-    lat = [ctx.real("lat%d" % i, lo=-90, hi=90) for i in range(n)]
-    lon = [ctx.real("lon%d" % i, lo=-180, hi=360) for i in range(n)]
+    if mesh == "structured":        # 2 x 2 grid given by its axes: every NODE is a point of the data set
+        lat_ax = [ctx.real("lat%d" % i, lo=-90, hi=90) for i in range(2)]
+        lon_ax = [ctx.real("lon%d" % i, lo=-180, hi=360) for i in range(2)]
+        lat = [lat_ax[0], lat_ax[0], lat_ax[1], lat_ax[1]]      # C order: last axis fastest
+        lon = [lon_ax[0], lon_ax[1], lon_ax[0], lon_ax[1]]
+    else:
+        lat = [ctx.real("lat%d" % i, lo=-90, hi=90) for i in range(n)]
+        lon = [ctx.real("lon%d" % i, lo=-180, hi=360) for i in range(n)]
     emb = [[ctx.real("e%d_%d" % (a, i), lo=-1, hi=1) for i in range(n)] for a in range(3)]
     calls = {"l2p": [], "c2g": []}
 
@@ -411,7 +418,10 @@ def standard_bins_latlon(ctx, bin_no, n):
     try:
         with warnings.catch_warnings():
             warnings.simplefilter("ignore")
-            bins = B.standard_bins([lat, lon], latlon=True, bin_no=bin_no, geo_scale=R)
+            if mesh == "structured":
+                bins = B.standard_bins([lat_ax, lon_ax], latlon=True, mesh_type="structured", bin_no=bin_no, geo_scale=R)
+            else:
+                bins = B.standard_bins([lat, lon], latlon=True, bin_no=bin_no, geo_scale=R)
     finally:
         B.latlon2pos, B.chordal_to_great_circle = real
     want_no = {2: 3, 4: 5}[n]           # ceil(2 log2(2) + 1) = 3, ceil(2 log2(4) + 1) = 5
@@ -440,3 +450,71 @@ def standard_bins_latlon(ctx, bin_no, n):
 
 
 symrun.CONC_FUNCS["c13_c2gc"] = lambda d, r: float(2 * r * np.arcsin(min(max(d / (2 * r), 0.0), 1.0)))
+
+
+@contract(P, "CovModel.pykrige_vario[latlon]/great-circle-degrees-to-chordal-distance-in-geo_scale-units",
+          functions=["covmodel/base.py:CovModel.pykrige_vario", "covmodel/base.py:CovModel.vario_yadrenko",
+                     "tools/geometric.py:great_circle_to_chordal"], timeout=40)
+def pykrige_vario_latlon(ctx):
+    """PyKrige hands great-circle distances in DEGREES to the variogram function; the model's length scale is in
+    the unit of geo_scale (sphere radius R): the variogram is evaluated at the chord 2 R sin(angle / 2)"""
+    m = ctx.m
+    U = _umodel(ctx)
+    R = ctx.real("R", lo=0.5, hi=7000.0)
+    v, l = ctx.real("var", pos=True), ctx.real("len", pos=True)
+    ctx.require(ctx.And(ctx.gt(R, 0), ctx.gt(v, 0), ctx.gt(l, 0)))
+    with warnings.catch_warnings():
+        warnings.simplefilter("ignore")
+        mod = U(latlon=True, geo_scale=R, var=v, len_scale=l)
+    deg = ctx.real("deg", lo=0.0, hi=180.0)
+    ctx.require(ctx.And(ctx.ge(deg, 0), ctx.le(deg, 180)))
+    got = mod.pykrige_vario(r=deg)
+    angle = deg * m.pi / 180
+    want = mod.variogram(2 * R * m.sin(angle / 2))
+    ctx.ensure("vario(degrees)=variogram(2R.sin(angle/2))", ctx.eq(got, want))
+    plain = U(dim=2, var=v, len_scale=l)
+    ctx.ensure("non-geographic:plain-variogram", ctx.eq(plain.pykrige_vario(r=deg), plain.variogram(deg)))
+
+
+@contract(P, "Krige[latlon,drift]/longitudes-in-any-range-describe-the-same-points",
+          params={"variant": ["Universal-linear", "Ordinary", "Simple", "ExtDrift"], "shift": [360.0, -360.0, 720.0]},
+          functions=["krige/base.py:Krige._get_krige_mat", "krige/base.py:Krige._get_krige_vecs", "tools/geometric.py:pos2latlon",
+                     "tools/geometric.py:latlon2pos"],
+          bounded="native run: 5 conditioning points around the date line, 4 targets, Gaussian model on the unit sphere")
+def latlon_lon_range(ctx, variant, shift):
+    """lon and lon +- 360 are the same point: kriging (incl. a functional drift in the coordinates, which is evaluated
+    on both sides of the kriging system) gives the same estimate and variance, and the conditioning values are
+    reproduced whatever range the longitudes are given in"""
+    with symrun.native():
+        m = gs.Gaussian(latlon=True, var=1.0, len_scale=0.6)
+        lat = np.array([10.0, 20.0, -5.0, 30.0, 0.0])
+        lon = np.array([170.0, 175.0, -175.0, -170.0, 179.0])
+        val = [1.0, 2.0, 0.5, -1.0, 0.3]
+        ext = [0.2, -0.4, 1.0, 0.6, 0.1]
+        tlat, tlon = np.array([12.0, -3.0, 25.0, 5.0]), np.array([172.0, -178.0, 178.0, -172.0])
+        text = [0.5, 0.1, -0.2, 0.9]
+
+        def mk(lo):
+            if variant == "Universal-linear":
+                return gs.krige.Universal(m, [lat, lo], val, "linear"), {}
+            if variant == "Ordinary":
+                return gs.krige.Ordinary(m, [lat, lo], val), {}
+            if variant == "Simple":
+                return gs.krige.Simple(m, [lat, lo], val, mean=0.3), {}
+            return gs.krige.ExtDrift(m, [lat, lo], val, ext), {"ext_drift": text}
+        # the same points with some longitudes given in another range
+        lon2 = lon.copy()
+        lon2[lon2 < 0] += shift if shift > 0 else 0.0
+        lon2[lon2 > 0] += shift if shift < 0 else 0.0
+        tlon2 = tlon.copy()
+        tlon2[tlon2 < 0] += 360.0
+        k1, kw = mk(lon)
+        k2, _ = mk(lon2)
+        f1, v1 = k1([tlat, tlon], **kw)
+        f2, v2 = k2([tlat, tlon2], **kw)
+        same = bool(np.allclose(f1, f2, rtol=1e-8, atol=1e-10) and np.allclose(v1, v2, rtol=1e-8, atol=1e-10))
+        kwc = {"ext_drift": ext} if variant == "ExtDrift" else {}
+        fc, vc = k2([lat, lon2], **kwc)
+        exact = bool(np.allclose(fc, val, rtol=1e-8, atol=1e-8) and np.allclose(vc, 0.0, atol=1e-8))
+    ctx.ensure("same-points-in-another-longitude-range=>same-result", same)
+    ctx.ensure("conditioning-values-reproduced", exact)
